@@ -307,6 +307,10 @@ loop:
 
 					// If compress is true, we're allowed to compress this dname
 					if compress {
+						// the labels the pointer stands in for count towards the limit as well
+						if nameLen-(1+labelLen)+domainNameLen(s[compBegin:], 0, nil, false) > maxDomainNameWireOctets {
+							return len(msg), ErrLongDomain
+						}
 						pointer = p // Where to point to
 						break loop
 					}
